@@ -7,4 +7,13 @@ require (
 	github.com/wollac/iota-crypto-demo v0.0.0
 )
 
+require (
+	github.com/iotaledger/iota.go v1.0.0 // indirect
+	github.com/pkg/errors v0.8.1 // indirect
+	golang.org/x/mod v0.4.2 // indirect
+	golang.org/x/sys v0.2.0 // indirect
+	golang.org/x/tools v0.1.7 // indirect
+	golang.org/x/xerrors v0.0.0-20200804184101-5ec99f83aff1 // indirect
+)
+
 replace github.com/wollac/iota-crypto-demo => ../../../
